@@ -60,7 +60,11 @@ fn impose(a: &Answer, first_fresh: VarId) -> Goal {
 
 fn producer(s: &mut Source) -> Vec<Goal> {
     let q0 = Term::Var(0);
-    match s.below(4) {
+    match s.below(7) {
+        // heads whose stream is mature (Cons) as soon as it is started
+        4 => vec![Goal::Always],
+        5 => vec![Goal::Conde(vec![vec![Goal::Succeed], vec![Goal::Eq(q0, Term::Int(5))]])],
+        6 => vec![Goal::Anyo(vec![Goal::Succeed])],
         0 => vec![Goal::Anyo(vec![Goal::Call(Rel::Member, vec![q0, Term::ints(&[1, 2])])])],
         1 => vec![Goal::Always, Goal::Eq(q0, Term::Int(3))],
         2 => vec![Goal::Call(Rel::Nat, vec![q0])],
